@@ -214,7 +214,7 @@ fn check_on(s: &mut crate::core::session::Session, c: &rusqlite::Connection, q: 
 }
 
 pub fn run(ctx: &mut Ctx) {
-    let total = ctx.n(5000, 150_000);
+    let total = ctx.n(5000, 40_000);
     for case in ctx.my_cases(total) {
         ctx.begin_case(case);
         let mut rng = ctx.rng(case);
